@@ -95,6 +95,8 @@ Definition ycheck (P : params) (E : env) (c input : list Z) (fuel : nat) (p : po
 Inductive ccase :=
 | COp (opcode x y z : Z) (result : Z)
 | CProg (code input : string) (gas : Z) (E : env) (obs : pobs)
+| CProgImpl (code input : string) (gas : Z) (E : env) (obs : pobs)   (* interpreter-shaped model only: runs on which the
+     ghost monitor fires (identity call with overlapping areas), where the Yellow-Paper machine is expected to differ *)
 | CTable
 | CJump (code bitmap : string) (dests : list (Z * bool)).
 
@@ -113,6 +115,12 @@ Definition check (P : params) (cs : ccase) : bool :=
       let fuel := (Z.to_nat (Z.min gas 40000) + 2)%nat in
       let '(o, maxh) := run_fast khash E P c inp fuel gas in
       obs_eqb o obs && (maxh <=? 1024) && ycheck P E c inp fuel obs
+  | CProgImpl code input gas E obs =>
+      let c := zbytes code in
+      let inp := zbytes input in
+      let fuel := (Z.to_nat (Z.min gas 40000) + 2)%nat in
+      let '(o, maxh) := run_fast khash E P c inp fuel gas in
+      obs_eqb o obs && (maxh <=? 1024)
   | CTable => table_ok (defined_of P) P
   | CJump code bm dests =>
       let c := zbytes code in
